@@ -38,7 +38,7 @@ theorem tieA_assert_sites : Generated.C07.assertSites = classifiedAssertSites.ma
 
 /-- the crash rows that own a raise / assert site are known rows (K-rows of DESIGN §7 + K11). -/
 theorem reachable_rows_listed :
-    reachableRows = ["K11", "K5", "K2", "K4", "K1", "K19", "K3", "K10", "K9", "K8"] := by
+    reachableRows = ["K11", "K5", "K2", "K4", "K1", "K3", "K10", "K9", "K8"] := by
   decide +kernel
 
 /-! ### Termination -/
@@ -69,6 +69,11 @@ theorem C07_fn_no_crash_partial (body : List Node) (h : NoCrashShapeFn body = tr
       fun s => .ok { s with ctx := Context.pop s.ctx }) :=
     nc_bind (visitList_nc env mn body _ h) (fun s => nc_ok _)
   exact this s e he
+
+/-- After the `del` fix (adebbdf) the model unbinds by FULL name; the predicate's `del` clause
+(`unravelFullOk`) accepts exactly the targets the old clause (`unravelOk`) accepted, so the hypothesis of
+`C07_fn_no_crash_partial` did not get stronger. -/
+theorem C07_del_clause_unchanged : unravelFullOk = unravelOk := funext unravelFullOk_eq
 
 /-- the full statement (no shape hypothesis) — false on the pinned tree. -/
 def C07_full : Prop := ∀ body, FnNoCrash body
